@@ -1,11 +1,71 @@
-from jsim.envs.base import Adapter
+"""Level-Based Foraging: rules written from docs/environments/lbf.md, the class docstring, the observer docstrings
+and properties C04/C05/C08/C09/C12 (plus the original lb-foraging game the docs refer to).
+
+Square grid with agents (position, level) and food items (position, level, eaten). Per-agent actions
+0 no-op, 1 up, 2 down, 3 left, 4 right (one cell; up = row - 1, left = col - 1), 5 load. A move is allowed iff
+the target cell is inside the grid and holds neither another agent nor an uneaten food. Agents move
+simultaneously; when several agents try to enter the same cell all of them stay. Load is allowed iff an
+uneaten food is 4-adjacent. A food is collected when the levels of the adjacent agents that load in this step
+add up to at least its level; each of them is rewarded agent_level * food_level (divided, when the reward is
+normalised, by the sum of the loaders' levels times the total food level, so the rewards of a fully collected
+board add up to one). The episode terminates when all food is eaten and is truncated (discount 1) at the
+time limit.
+"""
+from __future__ import annotations
+
+from typing import Any, Dict, List, Optional, Tuple
+
+import numpy as np
+
 from jsim.envs._mk import cfg, cross_tl
+from jsim.envs.base import Adapter, bfs_path
+
+MOVE = {1: (-1, 0), 2: (1, 0), 3: (0, -1), 4: (0, 1)}  # up, down, left, right
+LOAD = 5
+NBR = [(-1, 0), (1, 0), (0, -1), (0, 1)]
+
+
+def _act(frm: Tuple[int, int], to: Tuple[int, int]) -> int:
+    d = (to[0] - frm[0], to[1] - frm[1])
+    for a, dd in MOVE.items():
+        if dd == d:
+            return a
+    return 0
+
+
+class W:
+    """Raw arrays of a state."""
+
+    def __init__(self, s: Any):
+        self.apos = np.asarray(s.agents.position).astype(np.int64).reshape(-1, 2)
+        self.alev = np.asarray(s.agents.level).astype(np.int64).reshape(-1)
+        self.fpos = np.asarray(s.food_items.position).astype(np.int64).reshape(-1, 2)
+        self.flev = np.asarray(s.food_items.level).astype(np.int64).reshape(-1)
+        self.eaten = np.asarray(s.food_items.eaten).astype(bool).reshape(-1)
+        self.n = len(self.apos)
+        self.f = len(self.fpos)
+
+    def agent_cells(self) -> Dict[Tuple[int, int], int]:
+        return {(int(p[0]), int(p[1])): i for i, p in enumerate(self.apos)}
+
+    def food_cells(self) -> Dict[Tuple[int, int], int]:
+        return {(int(p[0]), int(p[1])): k for k, p in enumerate(self.fpos) if not self.eaten[k]}
+
+    def adjacent(self, i: int, k: int) -> bool:
+        return int(abs(self.apos[i] - self.fpos[k]).sum()) == 1
 
 
 class A(Adapter):
     name = "LevelBasedForaging"
     mask_mode = "per_agent"
     noop = 0
+    has_reaction = True
+    has_invalid_effect = True
+    has_physical = True
+    has_objective = True
+    sum_agents = True
+    has_model = True
+    has_observer = True
 
     def configs(self):
         base = [
@@ -26,3 +86,354 @@ class A(Adapter):
 
     def time_limit(self, env, c):
         return 100 if c.get("tl") is None else c["tl"]
+
+    # ---- rules on raw arrays ---------------------------------------------------------------------------
+    @staticmethod
+    def _legal_w(w: W, G: int) -> np.ndarray:
+        out = np.zeros((w.n, 6), bool)
+        out[:, 0] = True
+        agents, foods = w.agent_cells(), w.food_cells()
+        for i in range(w.n):
+            r, c = int(w.apos[i, 0]), int(w.apos[i, 1])
+            for a, (dr, dc) in MOVE.items():
+                cell = (r + dr, c + dc)
+                out[i, a] = 0 <= cell[0] < G and 0 <= cell[1] < G and cell not in agents and cell not in foods
+            out[i, LOAD] = any((r + dr, c + dc) in foods for dr, dc in NBR)
+        return out
+
+    @classmethod
+    def _move_w(cls, w: W, G: int, action: Any) -> Tuple[np.ndarray, int]:
+        """Positions after the simultaneous move: every allowed move claims its cell; a cell claimed by several agents is
+        entered by none of them."""
+        legal = cls._legal_w(w, G)
+        claims: Dict[Tuple[int, int], List[int]] = {}
+        for i in range(w.n):
+            a = int(action[i])
+            if a in MOVE and legal[i, a]:
+                cell = (int(w.apos[i, 0]) + MOVE[a][0], int(w.apos[i, 1]) + MOVE[a][1])
+                claims.setdefault(cell, []).append(i)
+        pos = w.apos.copy()
+        contested = 0
+        for cell, ids in claims.items():
+            if len(ids) == 1:
+                pos[ids[0]] = cell
+            else:
+                contested += 1
+        return pos, contested
+
+    @staticmethod
+    def _load_w(w: W, pos: np.ndarray, action: Any) -> Tuple[np.ndarray, np.ndarray]:
+        """(f, n) levels of the loading agents adjacent to each uneaten food, and which foods get eaten."""
+        lv = np.zeros((w.f, w.n), np.int64)
+        for k in range(w.f):
+            if w.eaten[k]:
+                continue
+            for i in range(w.n):
+                if int(action[i]) == LOAD and int(abs(pos[i] - w.fpos[k]).sum()) == 1:
+                    lv[k, i] = w.alev[i]
+        tot = lv.sum(axis=1)
+        return lv, (tot > 0) & (tot >= w.flev) & ~w.eaten
+
+    # ---- C04 -------------------------------------------------------------------------------------------
+    def legal(self, s: Any, env: Any) -> np.ndarray:
+        return self._legal_w(W(s), int(env.grid_size))
+
+    def describe(self, s, env, idx):
+        w = W(s)
+        return (f"agent {idx[0]} at {tuple(w.apos[idx[0]])}; agents {w.apos.tolist()}; food {w.fpos.tolist()} eaten {w.eaten.tolist()}; "
+                f"grid {int(env.grid_size)}")
+
+    def reaction_invalid(self, ps, action, agent, s, ts, env, cfg):
+        a = int(action[agent])
+        if a == 0:
+            return None
+        w0, w1 = W(ps), W(s)
+        if a in MOVE:
+            return bool(np.array_equal(w0.apos[agent], w1.apos[agent]))  # stayed: the move was ignored
+        newly = w1.eaten & ~w0.eaten
+        if any(newly[k] and w0.adjacent(agent, k) for k in range(w0.f)):
+            return False  # the load was carried out
+        if not newly.any() and not any((not w0.eaten[k]) and w0.adjacent(agent, k) for k in range(w0.f)):
+            return True  # nothing to load and nothing happened: ignored
+        return None  # a load next to a food that is too heavy looks like an ignored one
+
+    # ---- C05 -------------------------------------------------------------------------------------------
+    def invalid_effect(self, ps, action, illegal, s, ts, env, cfg):
+        w0, w1 = W(ps), W(s)
+        G = int(cfg["g"])
+        ill = list(illegal) if isinstance(illegal, (list, tuple)) else list(range(w0.n))
+        for i in ill:
+            if not np.array_equal(w0.apos[i], w1.apos[i]):
+                return ("invalid_move_moved_agent", f"agent {i} moved {tuple(w0.apos[i])} -> {tuple(w1.apos[i])} on illegal action {int(action[i])}")
+        # what would be eaten had the offenders played no-op
+        ref = [0 if j in ill else int(a) for j, a in enumerate(action)]
+        pos, _ = self._move_w(w0, G, ref)
+        _, eat = self._load_w(w0, pos, ref)
+        extra = w1.eaten & ~w0.eaten & ~eat
+        if extra.any():
+            return ("invalid_action_ate_food", f"food {np.flatnonzero(extra).tolist()} eaten on behalf of illegal actions {list(action)} of agents {ill}")
+        if (w0.eaten & ~w1.eaten).any():
+            return ("food_uneaten", "an eaten food came back")
+        tl = self.time_limit(env, cfg)
+        if int(ts.step_type) == 2 and not (w1.eaten.all() or int(ps.step_count) + 1 >= tl):
+            return ("invalid_action_ended_episode", f"LAST at step {int(ps.step_count) + 1} < {tl} with food left after illegal actions {list(action)}")
+        if int(s.step_count) != int(ps.step_count) + 1:
+            return ("invalid_move_step_count", f"step_count {int(s.step_count)} after {int(ps.step_count)}")
+        return None
+
+    # ---- C07 -------------------------------------------------------------------------------------------
+    def physical(self, ps, action, s, ts, env, cfg):
+        w = W(s)
+        G = int(cfg["g"])
+        if w.n != int(cfg["a"]) or w.f != int(cfg["f"]):
+            return ("entity_count", f"{w.n} agents / {w.f} food, configured {cfg['a']} / {cfg['f']}")
+        seen: Dict[Tuple[int, int], int] = {}
+        foods = w.food_cells()
+        for i in range(w.n):
+            cell = (int(w.apos[i, 0]), int(w.apos[i, 1]))
+            if not (0 <= cell[0] < G and 0 <= cell[1] < G):
+                return ("agent_outside_grid", f"agent {i} at {cell} on a {G}x{G} grid")
+            if cell in seen:
+                return ("agents_share_cell", f"agents {seen[cell]} and {i} both at {cell}")
+            seen[cell] = i
+            if cell in foods:
+                return ("agent_on_food", f"agent {i} stands on uneaten food {foods[cell]} at {cell}")
+        if ((w.fpos < 0) | (w.fpos >= G)).any():
+            return ("food_outside_grid", f"food positions {w.fpos.tolist()}")
+        if ps is None:
+            return None
+        w0 = W(ps)
+        if not np.array_equal(w0.fpos, w.fpos) or not np.array_equal(w0.flev, w.flev):
+            return ("food_changed", f"food positions/levels {w0.fpos.tolist()}/{w0.flev.tolist()} -> {w.fpos.tolist()}/{w.flev.tolist()}")
+        if (w0.eaten & ~w.eaten).any():
+            return ("food_uneaten", f"eaten {w0.eaten.tolist()} -> {w.eaten.tolist()}")
+        if not np.array_equal(w0.alev, w.alev) or not np.array_equal(np.asarray(ps.agents.id), np.asarray(s.agents.id)):
+            return ("agent_identity_changed", f"agent levels {w0.alev.tolist()} -> {w.alev.tolist()}")
+        return None
+
+    # ---- C08 -------------------------------------------------------------------------------------------
+    def objective(self, hist, env, cfg):
+        if not cfg["norm"] or float(cfg["pen"]) != 0.0:
+            return None
+        if not W(hist[-1].state).eaten.all():
+            return None
+        return 1.0  # normalised rewards of a fully collected board add up to one
+
+    # ---- C09 -------------------------------------------------------------------------------------------
+    def model_step(self, ps, action, s, ts, env, cfg):
+        w0, w1 = W(ps), W(s)
+        G = int(cfg["g"])
+        pos, contested = self._move_w(w0, G, action)
+        if int(s.step_count) != int(ps.step_count) + 1:
+            return ("step_count", f"step_count {int(s.step_count)} expected {int(ps.step_count) + 1}")
+        if not np.array_equal(w1.apos, pos):
+            i = int(np.argwhere((w1.apos != pos).any(axis=1))[0][0])
+            return ("position", f"agent {i}: {tuple(w1.apos[i])} expected {tuple(pos[i])} (from {w0.apos.tolist()}, actions {list(action)}, "
+                    f"food {w0.fpos.tolist()} eaten {w0.eaten.tolist()}, {contested} contested cells)")
+        lv, eat = self._load_w(w0, pos, action)
+        eaten = w0.eaten | eat
+        if not np.array_equal(w1.eaten, eaten):
+            return ("eaten", f"eaten {w1.eaten.tolist()} expected {eaten.tolist()} (loaders' levels per food {lv.tolist()}, food levels {w0.flev.tolist()})")
+        if not np.array_equal(w1.fpos, w0.fpos) or not np.array_equal(w1.flev, w0.flev) or not np.array_equal(w1.alev, w0.alev):
+            return ("constants", "food positions / levels or agent levels changed")
+        want_loading = np.asarray([int(a) == LOAD for a in action])
+        if not np.array_equal(np.asarray(s.agents.loading).astype(bool).reshape(-1), want_loading):
+            return ("loading_flag", f"agents.loading {np.asarray(s.agents.loading).tolist()} after actions {list(action)}")
+        # reward
+        norm, pen = bool(cfg["norm"]), float(cfg["pen"])
+        total = float(w0.flev.sum())
+        base = np.zeros(w0.n)
+        for k in np.flatnonzero(eat):
+            share = lv[k].astype(np.float64) * float(w0.flev[k])
+            base += share / (float(lv[k].sum()) * total) if norm else share
+        failed = [int(k) for k in range(w0.f) if lv[k].sum() > 0 and not eat[k]]
+        r = np.asarray(ts.reward, dtype=np.float64)
+        if r.shape != base.shape:
+            return ("reward_shape", f"{r.shape}")
+        if pen == 0.0 or not failed:
+            cands = [base]
+        elif norm:
+            cands = []  # penalty under normalisation: scale undocumented, not judged
+        else:
+            # the docs name a penalty for loaders that fail to collect a food but not who pays it: accepted are
+            # "every agent pays once per failed food" and "the adjacent loaders of the failed food pay"
+            cands = [base - pen * len(failed), base - pen * sum((lv[k] > 0).astype(np.float64) for k in failed)]
+        if cands and not any(np.allclose(r, c, rtol=1e-5, atol=1e-6) for c in cands):
+            return ("reward", f"reward {r.tolist()} expected {[c.tolist() for c in cands]} (loaders' levels per food {lv.tolist()}, food levels "
+                    f"{w0.flev.tolist()}, eaten now {eat.tolist()}, normalise={norm}, penalty={pen})")
+        # end of episode
+        sc = int(ps.step_count) + 1
+        tl = self.time_limit(env, cfg)
+        st = int(ts.step_type)
+        d = np.asarray(ts.discount, dtype=np.float64)
+        if eaten.all():
+            if st != 2 or not np.allclose(d, 0.0):
+                return ("termination", f"all food eaten but step_type {st} discount {d.tolist()}")
+        elif sc >= tl:
+            if st != 2 or not np.allclose(d, 1.0):
+                return ("truncation", f"time limit {tl} reached at step {sc} with food left but step_type {st} discount {d.tolist()}")
+        elif st != 1 or not np.allclose(d, 1.0):
+            return ("early_end", f"step {sc}/{tl}, food left, but step_type {st} discount {d.tolist()}")
+        return None
+
+    # ---- C11 -------------------------------------------------------------------------------------------
+    def end_cause(self, ps, action, s, ts, env, cfg):
+        return "all_food_eaten" if W(s).eaten.all() else None
+
+    # ---- C12 -------------------------------------------------------------------------------------------
+    def observe(self, s, obs, env, cfg):
+        w = W(s)
+        G, fov = int(cfg["g"]), int(cfg["fov"])
+        view = np.asarray(obs.agents_view)
+        if cfg["grid"]:
+            # three layers of a (2 fov + 1)^2 window centred on the agent: agent levels, levels of uneaten food, accessibility
+            # (1 = inside the grid and holding neither an agent nor an uneaten food)
+            side = 2 * fov + 1
+            if view.shape != (w.n, 3, side, side):
+                return ("agents_view_shape", f"{view.shape} expected {(w.n, 3, side, side)}")
+            agents, foods = w.agent_cells(), w.food_cells()
+            want = np.zeros((w.n, 3, side, side), np.int64)
+            for i in range(w.n):
+                for dr in range(-fov, fov + 1):
+                    for dc in range(-fov, fov + 1):
+                        cell = (int(w.apos[i, 0]) + dr, int(w.apos[i, 1]) + dc)
+                        if not (0 <= cell[0] < G and 0 <= cell[1] < G):
+                            continue
+                        if cell in agents:
+                            want[i, 0, dr + fov, dc + fov] = w.alev[agents[cell]]
+                        if cell in foods:
+                            want[i, 1, dr + fov, dc + fov] = w.flev[foods[cell]]
+                        want[i, 2, dr + fov, dc + fov] = int(cell not in agents and cell not in foods)
+            if not np.array_equal(view, want):
+                ix = np.argwhere(view != want)[0]
+                return ("grid_view", f"agents_view{ix.tolist()} = {int(view[tuple(ix)])} expected {int(want[tuple(ix)])} (agent at "
+                        f"{tuple(w.apos[ix[0]])}, layer {['agents', 'food', 'access'][ix[1]]}, fov {fov}; agents {w.apos.tolist()} food "
+                        f"{w.fpos.tolist()} eaten {w.eaten.tolist()})")
+        else:
+            # per agent: num_food food triples, own triple, the other agents' triples in id order; a triple is (row, col, level) with
+            # coordinates counted from the top-left corner of the agent's window clipped to the grid; (-1, -1, 0) when not visible
+            if view.shape != (w.n, 3 * (w.f + w.n)):
+                return ("agents_view_shape", f"{view.shape} expected {(w.n, 3 * (w.f + w.n))}")
+            want = np.zeros((w.n, 3 * (w.f + w.n)), np.int64)
+            for i in range(w.n):
+                me = w.apos[i]
+                origin = np.asarray([max(0, int(me[0]) - fov), max(0, int(me[1]) - fov)])
+
+                def triple(p: np.ndarray, level: int, exists: bool = True) -> List[int]:
+                    if exists and int(abs(p - me).max()) <= fov:
+                        return [int(p[0] - origin[0]), int(p[1] - origin[1]), int(level)]
+                    return [-1, -1, 0]
+
+                row: List[int] = []
+                for k in range(w.f):
+                    row += triple(w.fpos[k], w.flev[k], not w.eaten[k])
+                row += triple(me, w.alev[i])
+                for j in range(w.n):
+                    if j != i:
+                        row += triple(w.apos[j], w.alev[j])
+                want[i] = row
+            if not np.array_equal(view, want):
+                ix = np.argwhere(view != want)[0]
+                return ("vector_view", f"agents_view{ix.tolist()} = {int(view[tuple(ix)])} expected {int(want[tuple(ix)])} (agent at "
+                        f"{tuple(w.apos[ix[0]])}, fov {fov}; agents {w.apos.tolist()} levels {w.alev.tolist()} food {w.fpos.tolist()} levels "
+                        f"{w.flev.tolist()} eaten {w.eaten.tolist()})\n{view[ix[0]].tolist()}\nvs\n{want[ix[0]].tolist()}")
+        if int(obs.step_count) != int(s.step_count):
+            return ("step_count", f"obs {int(obs.step_count)} vs state {int(s.step_count)}")
+        m = np.asarray(obs.action_mask)
+        if m.shape != (w.n, 6) or m.dtype != bool:
+            return ("action_mask_shape", f"action_mask {m.shape} {m.dtype}")
+        return None
+
+    # ---- policies --------------------------------------------------------------------------------------
+    def policy_survive(self, s, env, rng, legal):
+        return [0] * W(s).n  # nothing is ever collected: only the clock ends the episode
+
+    def policy_complete(self, s, env, rng, legal):
+        """All agents walk to the lowest-index uneaten food and load together once their levels suffice."""
+        w = W(s)
+        G = int(env.grid_size)
+        left = np.flatnonzero(~w.eaten)
+        if len(left) == 0:
+            return None
+        k = int(left[0])
+        fr, fc = int(w.fpos[k, 0]), int(w.fpos[k, 1])
+        ring = [(fr + dr, fc + dc) for dr, dc in NBR if 0 <= fr + dr < G and 0 <= fc + dc < G]
+        free = np.ones((G, G), bool)
+        for c in w.agent_cells():
+            free[c] = False
+        for c in w.food_cells():
+            free[c] = False
+        adj = [i for i in range(w.n) if w.adjacent(i, k)]
+        act = [0] * w.n
+        if sum(int(w.alev[i]) for i in adj) >= int(w.flev[k]):
+            for i in adj:
+                act[i] = LOAD
+            return act
+        taken = set()
+        for i in range(w.n):
+            if i in adj:
+                continue
+            goals = [c for c in ring if free[c] and c not in taken]
+            path = bfs_path(free, (int(w.apos[i, 0]), int(w.apos[i, 1])), lambda c, goals=goals: c in goals) if goals else None
+            if path is None or len(path) < 2 or path[1] in taken:
+                continue
+            taken.add(path[1])
+            taken.add(path[-1])
+            act[i] = _act(path[0], path[1])
+        if not any(act):
+            return None
+        return act
+
+    def policy_collide(self, s, env, rng, legal):
+        """Send as many agents as possible into one free cell; otherwise walk the closest pair towards each other."""
+        if rng.random() < 0.25:
+            return None  # a contested cell is entered by nobody, so pure collision-seeking would repeat one position for ever
+        w = W(s)
+        G = int(env.grid_size)
+        lg = self._legal_w(w, G)
+        wants: Dict[Tuple[int, int], List[Tuple[int, int]]] = {}
+        for i in range(w.n):
+            for a in MOVE:
+                if lg[i, a]:
+                    wants.setdefault((int(w.apos[i, 0]) + MOVE[a][0], int(w.apos[i, 1]) + MOVE[a][1]), []).append((i, a))
+        shared = sorted((c for c in wants if len(wants[c]) > 1), key=lambda c: (-len(wants[c]), c))
+        act = [0] * w.n
+        if shared:
+            top = [c for c in shared if len(wants[c]) == len(wants[shared[0]])]
+            for i, a in wants[top[int(rng.integers(0, len(top)))]]:
+                act[i] = a
+            for i in range(w.n):
+                if act[i] == 0 and rng.random() < 0.5:
+                    idx = np.flatnonzero(lg[i])
+                    act[i] = int(idx[int(rng.integers(0, len(idx)))])
+            return act
+        if w.n < 2:
+            return None
+        best = None
+        for i in range(w.n):
+            for j in range(i + 1, w.n):
+                d = int(abs(w.apos[i] - w.apos[j]).sum())
+                if best is None or d < best[0]:
+                    best = (d, i, j)
+        _, i, j = best
+        free = np.ones((G, G), bool)
+        for c in w.agent_cells():
+            free[c] = False
+        for c in w.food_cells():
+            free[c] = False
+        goal = (int(w.apos[j, 0]), int(w.apos[j, 1]))
+        free[goal] = True
+        path = bfs_path(free, (int(w.apos[i, 0]), int(w.apos[i, 1])), lambda c: c == goal)
+        if path is None:
+            return None
+        edges = len(path) - 1
+        if edges < 3:  # adjacent agents: step aside to get an even distance
+            idx = np.flatnonzero(lg[i, 1:5]) + 1
+            if len(idx) == 0:
+                return None
+            act[i] = int(idx[int(rng.integers(0, len(idx)))])
+            return act
+        act[i] = _act(path[0], path[1])
+        if edges % 2 == 0 and edges >= 4:
+            act[j] = _act(path[-1], path[-2])
+        return act
